@@ -174,7 +174,7 @@ class MDAGaussSeidel(BaseMDASolver):
             return
 
         while True:
-            local_data_before_execution = self.io.data.copy()
+            local_data_before_execution = self._get_local_data_before_execution()
             self._execute_disciplines_and_update_local_data()
             self._compute_residuals(local_data_before_execution)
 
